@@ -191,6 +191,11 @@ func (f *Frame) nextInstr(x *ssa.Next, st *state) {
 	u.setArr(st.mem, site, SArr(mi.kSort, SBool), store(vis, info.addr, ite(ok, store(visited, k, "true"), visited)))
 	// value
 	kv := Val{T: mt.Key(), S: []string{k}}
+	if !u.noAssume {
+		if tf := u.typingFact(kv, st.mem); tf != "true" {
+			u.ctx.assert("typing", implies(st.reach, tf))
+		}
+	}
 	_, v := u.mapGet(st, info.m, info.mapT, kv)
 	out := Val{S: []string{ok}}
 	tup := x.Type().(*types.Tuple)
